@@ -217,6 +217,26 @@ fn positioned_cases() -> &'static Vec<Positioned> {
                     out.push(Positioned { text, expected: "InvalidQualifier".into(), cell: "bad-item".into(), typed });
                 }
             }
+            // every ASCII character that is not a hex digit (and a few others) as a digit of the digest, raw and escaped
+            if base.items.is_empty() {
+                for b in 0u32..=0x17f {
+                    let Some(c) = char::from_u32(b) else { continue };
+                    if c.is_ascii_hexdigit() || matches!(c, ':' | ',' | '#' | '?' | '&') {
+                        continue;
+                    }
+                    for escaped in [false, true] {
+                        if !escaped && c == '%' {
+                            continue;
+                        }
+                        let digit: String = if escaped { c.to_string().bytes().map(|x| format!("%{x:02X}")).collect() } else { c.to_string() };
+                        for value in [format!("sha1:0{digit}"), format!("a:{digit}0,b:00"), format!("a:00,b:{digit}{digit}")] {
+                            let mut sp = base.clone();
+                            sp.items.push(("checksum".to_string(), vec![value], true));
+                            out.push(Positioned { text: sp.assemble(), expected: "InvalidQualifier".into(), cell: "non-hex-digit".into(), typed });
+                        }
+                    }
+                }
+            }
             // any character before the scheme
             for c in [' ', '/', ':', 'x', 'P', '\u{feff}', '%', '\n', '\u{0}', 'é'] {
                 out.push(Positioned { text: format!("{c}{}", base.assemble()), expected: "UnsupportedUrlScheme".into(), cell: "scheme".into(), typed });
@@ -237,6 +257,7 @@ fn o_positioned(c: &Positioned, st: &mut Stats) -> Result<(), String> {
         "hidden-slash" => st.class("positioned:hidden-slash"),
         "bad-type" => st.class("positioned:bad-type"),
         "bad-item" => st.class("positioned:bad-item"),
+        "non-hex-digit" => st.class("positioned:non-hex-digit"),
         _ => st.class("positioned:scheme"),
     }
     st.nontrivial(c.text.as_str(), || json!({ "cell": c.cell, "string": c.text, "expected": c.expected }));
@@ -295,8 +316,21 @@ fn cells(kind: &str) -> Vec<&'static str> {
     }
 }
 
+fn o_hist(h: &crate::history::Hist<FaultCase>, st: &mut Stats) -> Result<(), String> {
+    let text = inject(&h.inner).map(|f| f.text).unwrap_or_default();
+    crate::history::judge(h, &text, o_generic, st)
+}
+
 pub fn sections() -> Vec<Box<dyn Section>> {
     let mut v: Vec<Box<dyn Section>> = Vec::new();
+    v.push(Box::new(Random {
+        name: "faults-after-a-prelude".into(),
+        quick: 16_000,
+        thorough: 400_000,
+        strategy: Box::new(|_| crate::history::ghist(crate::props::c01::gfault())),
+        oracle: o_hist,
+        required: vec![],
+    }));
     for kind in KINDS {
         v.push(Box::new(Random {
             name: format!("fault:{kind}"),
